@@ -20,7 +20,9 @@ CONCRETE = {"minimize", "minimize-around", "minimize-balanced", "minimize-collap
 
 def files(quick, r):
     begins = [b"DDBEGIN\n", b"// x DDBEGIN y\r\n", b"head\nDDBEGIN\r"]
-    ends = [b"DDEND\n", b"/* DDEND */ tail", b"\x85DDEND\n", b"DDEND\r\nmore\n"]
+    ends = [b"DDEND\n", b"/* DDEND */ tail", b"\x85DDEND\n", b"DDEND\r\nmore\n",
+            # the protected footer mentions the marker words again (the FIRST DDEND line ends the region)
+            b"DDEND\n// see DDEND above, DDBEGIN too\nDDEND\n"]
     bodies = [b"a\xff{\n\n}\n{\xc2\x85}\n", b"{\n\n}\n", b"a\nb\n", b"x{\n}y\n{ \n}\n", b"function f(a) {\n}\nf(1);\n", b"a.b.c = 1;\nd.b.c = 2;\n",
               b"'ab\\x41'\n\"c\"\n", b"<a b=\"c\" d>\n", b"a\r\nb\r\n", b"a\xc2\x85b\xc2\x85", b"{\n\r\n}\r\n",
               b"{\nX\n}a\xc2}\n", b"\n{\n}\n", b"a\rb\r"]
@@ -28,7 +30,8 @@ def files(quick, r):
     for bg, body, en in itertools.product(begins, bodies, ends):
         out.append(bg + body + en)
     r.shuffle(out)
-    return out[: (40 if quick else 156)]
+    keep = [f for f in out if f.count(b"DDEND") > 1][:6]
+    return keep + out[: (40 if quick else 195)]
 
 
 def run(ck: Check):
